@@ -42,7 +42,7 @@ def gen_cases(tier, seed):
             for stale in (False, True):
                 if tier == 'quick' and stale and (len(sz) > 1 or ncp == 2):
                     continue
-                for mode in ('kill', 'raise', 'downstream'):
+                for mode in ('kill', 'raise', 'downstream', 'retry'):
                     i += 1
                     yield {'family': 'cp%d/%s' % (ncp, mode), 'sizes': sz, 'ncp': ncp, 'stale': stale, 'idx': i,
                            'seed': seed, 'tier': tier, 'mode': mode}
@@ -249,6 +249,90 @@ def run_case(case):
                 % (what, ncp - 1), 'committed_on_failure')
         recover(cpdir, complete, what)
         shutil.rmtree(cpdir, ignore_errors=True)
+    # in-process retry: the SAME Flow object is run again after a run that failed while the checkpoint was being
+    # saved (a step downstream fails once): the retry must recompute from the sources and equal the baseline
+    if case['mode'] == 'retry':
+        for (j, r) in points:
+            cpdir = 'r_%d_%s' % (j, r)
+            prepare(cpdir)
+
+            def retry(cpdir=cpdir, j=j, r=r):
+                cnt = {'pulled': 0}
+                state = {'armed': True}
+                desc = {'resources': [{'name': 'res%d' % i, 'path': 'res%d.csv' % i, 'schema': {'fields': copy.deepcopy(F)}}
+                                      for i in range(len(tables))]}
+
+                def src(package):
+                    for rd in copy.deepcopy(desc['resources']):
+                        package.pkg.add_resource(rd)
+                    yield package.pkg
+                    yield from package
+                    for t in tables:
+                        def it(t=t):
+                            for row in copy.deepcopy(t):
+                                cnt['pulled'] += 1
+                                yield row
+                        yield it()
+
+                def failing_once(package):
+                    yield package.pkg
+                    for jj, res in enumerate(package):
+                        def it(res=res, jj=jj):
+                            n = 0
+                            for row in res:
+                                if state['armed'] and jj == j and n == r:
+                                    state['armed'] = False
+                                    raise RuntimeError('downstream step failed (first attempt)')
+                                n += 1
+                                yield row
+                            if state['armed'] and jj == j and r == 'end':
+                                state['armed'] = False
+                                raise RuntimeError('downstream step failed at exhaustion (first attempt)')
+                        yield it()
+                steps = [src, d.add_field('a', 'integer', 1), d.checkpoint('c0', checkpoint_path=cpdir)]
+                if ncp == 2:
+                    steps += [d.add_field('b', 'string', 'x'), d.checkpoint('c1', checkpoint_path=cpdir)]
+                steps += [failing_once, d.add_field('z', 'integer', 9)]
+                flow = d.Flow(*steps)
+                rep = {'first_failed': False}
+                try:
+                    with boot.quiet():
+                        flow.results()
+                except Exception:
+                    rep['first_failed'] = True
+                rep['complete_after_failure'] = [k for k in range(ncp)
+                                                 if os.path.exists(os.path.join(cpdir, 'c%d' % k, 'stream.ndjson'))]
+                cnt['pulled'] = 0
+                try:
+                    with boot.quiet():
+                        results, dp, _ = flow.results()
+                    rep.update(ok=True, summary=summarize(results, dp.descriptor), pulled=cnt['pulled'])
+                except Exception as e:
+                    rep.update(ok=False, error='%s: %s' % (type(getattr(e, 'cause', e)).__name__, str(e)[:200]))
+                return rep
+            code, rep = crashlab.in_child(retry, os.path.join(scratch, 'rep.json'))
+            what = 'same Flow object retried after a downstream failure at resource %d row %s' % (j, r)
+            counters['crash_points_executed'] += 1
+            cov['mode']['retry_same_object'] = cov['mode'].get('retry_same_object', 0) + 1
+            if code != 0 or not rep or rep.get('child_exception'):
+                add('retry_harness', '%s: child failed: %r' % (what, rep), 'retry_child')
+                continue
+            if not rep['first_failed']:
+                continue
+            counters['recoveries_compared'] += 1
+            if rep['complete_after_failure'] and (ncp - 1) in rep['complete_after_failure']:
+                add('checkpoint_committed_on_failure', '%s: checkpoint c%d committed by the failed attempt' % (what, ncp - 1),
+                    'committed_on_failure')
+            if not rep.get('ok'):
+                add('retry_failed', '%s: the retry failed: %s' % (what, rep.get('error')), 'retry_failed')
+            elif rep['summary'] != base['summary']:
+                add('retry_differs', '%s: the retry returned rows %r, an uninterrupted run %r'
+                    % (what, [len(x) for x in rep['summary']['rows']], [len(x) for x in base['summary']['rows']]),
+                    'retry_differs')
+            elif not rep['complete_after_failure'] and rep['pulled'] != total:
+                add('retry_source_use', '%s: the retry pulled %d source rows, expected %d' % (what, rep['pulled'], total),
+                    'retry_source_use')
+            shutil.rmtree(cpdir, ignore_errors=True)
     shutil.rmtree('base', ignore_errors=True)
     shutil.rmtree('rec', ignore_errors=True)
     sample = {'config': cfg, 'events': K, 'trace_head': trace[:12], 'trace_tail': trace[-4:]}
